@@ -5,8 +5,11 @@ import datetime
 import decimal
 import keyword
 
+import json
+
 from harness import flatlib as fl
 from harness.core import Property
+from harness.props import scalars_g6 as S
 from harness.props.c07 import _shrink_schema_value
 
 
@@ -36,6 +39,11 @@ def decode_value(j, gens=True):
         return [(k, decode_value(v, gens)) for k, v in j["pairs"]]
     if "junk" in j:
         return 3.5j  # a complex number: hashable, not iterable, not dict-like, no scalar type takes it
+    if "x" in j:
+        # a native of an unusual type, by its tagged description (scalars_g6.exotic_from_nat): UserString, an object with
+        # __str__ only, str / int / float / Decimal / date subclasses with their own __str__, IntEnum member, Fraction,
+        # aware time, bytes, bytearray.  Generated at leaf positions only.
+        return S.nat_to_py(j["x"])
     return fl.decode_native(j)
 
 
@@ -46,6 +54,10 @@ def encode_py(o):
     {"d": [[key, v]..]} | {"nt": [[field, v]..]} | {"junk": 1}."""
     if o is None:
         return None
+    if S.is_exotic(o) or isinstance(o, S.Other):
+        # the model holds it as an opaque atom carrying the full description (what a leaf makes of it is looked up in the
+        # adapt table, computed by handing the re-built object to the real class)
+        return {"a": "x:" + json.dumps(S.py_to_nat(o), sort_keys=True)}
     if isinstance(o, str):
         return {"s": o}
     if isinstance(o, bool):
@@ -90,6 +102,8 @@ def decode(n):
     if "junk" in n:
         return 3.5j
     tag, _, body = n["a"].partition(":")
+    if tag == "x":
+        return S.nat_to_py(json.loads(body))
     if tag == "i":
         return int(body)
     if tag == "b":
@@ -585,6 +599,8 @@ def gen_value3(rng, s, kinds, hostile):
     repeated keys, keys that are no texts; for sequences a list, tuple or generator."""
     t = s["t"]
     if t not in ("dict", "list", "array"):
+        if t in ("leaf", "compound") and rng.random() < 0.12:
+            return exotic_leaf_value(rng, kinds[s["k"]])
         return fl.gen_value(rng, s, kinds, hostile)
     if rng.random() < hostile:
         return copy.deepcopy(rng.choice(HOSTILE_CONTAINER))
@@ -644,6 +660,55 @@ def gen_value3(rng, s, kinds, hostile):
         items.insert(rng.randint(0, len(items)), [rng.choice(UNHASHABLE_KEYS), {"s": "x"}])
     r = rng.random()
     return items if r < 0.6 else ({"tuple": items} if r < 0.8 else {"gen": items})
+
+
+_EXOTIC_KIND = {"String": "string", "Enum": "string", "Integer": "integer", "Long": "integer", "DateMember": "integer",
+                "EnumInt": "integer", "Float": "float", "Decimal": "decimal", "Boolean": "boolean_default", "Date": "date",
+                "Time": "time", "DateTime": "datetime", "DateYMD": "date"}
+
+
+def exotic_leaf_value(rng, kind):
+    """A native of an unusual but legitimate type for a leaf-like of this kind (scalars_g6.random_exotic), as case JSON.
+    `bytes` are not handed to temporal kinds (KF-C04-e: Temporal.adapt raises TypeError on them; C04's subject)."""
+    bk = _EXOTIC_KIND.get(kind["type"])
+    temporal = bk in ("date", "time", "datetime")
+    for _ in range(20):
+        x = S.random_exotic(rng, {"k": bk} if bk and rng.random() < 0.8 else None, pads=S.SAFE_PADS)
+        if temporal and type(x) is bytes:
+            continue
+        if kind["type"] == "DateYMD" and type(x) in (bytes, bytearray):
+            continue
+        j = S.py_to_nat(x)
+        if j is not None and j["t"] in S.EXOTIC_TAGS + ("other",):
+            return {"x": j}
+        if isinstance(x, datetime.datetime):
+            return {"dt": [x.year, x.month, x.day, x.hour, x.minute, x.second, x.microsecond]}
+        if isinstance(x, datetime.date):
+            return {"date": [x.year, x.month, x.day]}
+        if isinstance(x, bool):
+            return {"b": x}
+    return {"none": 1}
+
+
+def exotic_tags(v, acc):
+    if isinstance(v, list):
+        for x in v:
+            exotic_tags(x, acc)
+    elif isinstance(v, dict):
+        if "x" in v and isinstance(v["x"], dict) and "t" in v["x"]:
+            acc.add("exotic-" + v["x"]["t"])
+            shown = v["x"].get("s", v["x"].get("shown", v["x"].get("v", v["x"].get("b", ""))))
+            if isinstance(shown, str) and shown != shown.strip():
+                acc.add("exotic-padded")
+        else:
+            for tag in ("tuple", "gen"):
+                if tag in v:
+                    exotic_tags(v[tag], acc)
+            for tag in ("nt", "kd", "d", "pairs"):
+                if tag in v:
+                    for x in v[tag]:
+                        exotic_tags(x[1], acc)
+    return acc
 
 
 def value_forms(v, acc):
@@ -747,12 +812,20 @@ class C03(Property):
         "state) is evaluated on those tables per case, in Lean and in Python, not proved for all inputs",
         "the state set_flat() leaves (and a set() that raised half-way) is read from the real element and given to the model, which "
         "checks `shapedB` on it",
+        "natives of unusual types (UserString, object with __str__ only, str / int / float / Decimal / date subclasses with their own "
+        "__str__, IntEnum members, Fraction, aware time, bytes, bytearray) are opaque atoms for the model, carrying their full tagged "
+        "description ('x:{json}'); the adapt-table rows for them are computed by re-building the object from that description and handing it "
+        "to the real class, also when such an object is the exported .value (a date subclass / str subclass instance kept by the leaf).  They "
+        "are generated at leaf positions only (the model treats atoms as non-iterable; UserString / bytes / str subclasses are iterable)",
     ]
     assumptions = [
         "MultiValue excluded (the property says so)",
         "inputs: dicts (text keys; ints / None / tuples as extra keys), lists / tuples / generators of pairs (2-item lists, 2-tuples, "
         "2-character texts; wrong arity and non-iterable items), namedtuples, repeated keys, lists / tuples / generators for sequences, "
         "texts, scalar natives, None; other iterables and dict-likes (custom classes with keys()/items()) are not generated",
+        "12% of the leaf / DateYYYYMMDD values are natives of unusual but legitimate types (scalars_g6.random_exotic, mostly suiting the "
+        "leaf's kind, padded with ASCII / non-ASCII whitespace; U+0085 / U+2028 / U+2029 paddings left to C04: the driver output of this "
+        "check carries raw text lines); bytes are not handed to Date / Time / DateTime / DateYYYYMMDD (KF-C04-e: set() raises TypeError)",
         "field names of a Dict are texts, distinct (Dict.of enforces it); 'strict' policy not combined with SparseDict",
         "the element's history before the set() of the property: set() on the element, set_flat() ('_' separator, keys from the "
         "schema's flattened names), a member's own set() at any path, item assignment with native values on Dict / SparseDict / "
@@ -769,34 +842,36 @@ class C03(Property):
             "quantifier names (dict, pair lists with list / tuple / 2-character-text items, namedtuple, generator, partial key sets, "
             "repeated keys, non-text keys, hostile shapes); about 35% of the elements have a history of 1-3 steps before that set() "
             "(set / set_flat / member set() / item assignment, with valid, unadaptable and empty inputs; then often a PARTIAL set()); "
+            "12% of leaf values are natives of unusual types (UserString, subclasses with their own __str__, IntEnum, Fraction, datetime / date "
+            "subclass / aware time, bytes; tags exotic-*); "
             "non-trivial = set() returned True on a container holding at least 2 leaves; distinct = canonical case JSON")
     quick_n = 25000
     thorough_n = 150000
 
     def corpus(self):
-        S = lambda name, k=0: {"t": "leaf", "name": name, "opt": False, "k": k}
+        S_ = lambda name, k=0: {"t": "leaf", "name": name, "opt": False, "k": k}
         kinds = [fl.LEAF_KINDS[0], fl.LEAF_KINDS[4], {"type": "Joined", "sep": ",", "prune": True, "member": fl.LEAF_KINDS[0]},
                  {"type": "DateYMD"}, {"type": "DateMember", "name": "year"}, {"type": "DateMember", "name": "month"},
                  {"type": "DateMember", "name": "day"}, {"type": "Joined", "sep": ",", "prune": False, "member": fl.LEAF_KINDS[0]}]
         D = lambda fields, name=None, mode="dense": {"t": "dict", "name": name, "opt": False, "mode": mode, "fields": fields}
-        comp = lambda name: {"t": "compound", "name": name, "opt": False, "k": 3, "fields": [S("year", 4), S("month", 5), S("day", 6)]}
-        bool_partial = {"schema": D([S("b", 1), S("s", 0)]), "kinds": kinds, "value": {"d": [["s", {"s": "x"}]]}}   # fixed: Boolean None
-        joined = {"schema": {"t": "joined", "name": "j", "opt": False, "k": 2, "member": S(None, 0)},
+        comp = lambda name: {"t": "compound", "name": name, "opt": False, "k": 3, "fields": [S_("year", 4), S_("month", 5), S_("day", 6)]}
+        bool_partial = {"schema": D([S_("b", 1), S_("s", 0)]), "kinds": kinds, "value": {"d": [["s", {"s": "x"}]]}}   # fixed: Boolean None
+        joined = {"schema": {"t": "joined", "name": "j", "opt": False, "k": 2, "member": S_(None, 0)},
                   "kinds": kinds, "value": [{"s": "a"}, {"s": " "}, {"s": "b"}]}      # KF-C03-a
-        ab = D([S("a"), S("b")])
+        ab = D([S_("a"), S_("b")])
         pair_list = {"schema": ab, "kinds": kinds, "value": [[{"s": "a"}, {"s": "x"}]]}          # a list of 2-item lists
         two_char = {"schema": ab, "kinds": kinds, "value": [{"s": "ax"}]}                       # a 2-character text is a pair
         one_text = {"schema": ab, "kinds": kinds, "value": {"s": "ax"}}                         # not dict-like: False
         nt = {"schema": ab, "kinds": kinds, "value": {"nt": [["a", {"s": "x"}], ["b", {"s": "y"}]]}}
-        inner = D([S("a")], name="m")
+        inner = D([S_("a")], name="m")
         dup_kept = {"schema": D([inner]), "kinds": kinds,                                       # second value not dict-like:
                     "value": [{"tuple": [{"s": "m"}, {"d": [["a", {"s": "x"}]]}]}, {"s": "m7"}]}  # first state kept, flag False
-        dup_reset = {"schema": D([inner, S("z")]), "kinds": kinds,
+        dup_reset = {"schema": D([inner, S_("z")]), "kinds": kinds,
                      "value": {"gen": [[{"s": "m"}, {"d": [["a", {"s": "x"}]]}], [{"s": "m"}, {"d": []}]]}}
         date_garbage = {"schema": D([comp("d")]), "kinds": kinds, "value": {"d": [["d", {"s": "garbage"}]]}}  # True, value None
         date_dup = {"schema": D([comp("d")]), "kinds": kinds,                                   # None keeps the members
                     "value": [[{"s": "d"}, {"date": [2020, 1, 2]}], [{"s": "d"}, {"none": 1}]]}
-        noprune = {"schema": {"t": "joined", "name": "j", "opt": False, "k": 7, "member": S(None, 0)},
+        noprune = {"schema": {"t": "joined", "name": "j", "opt": False, "k": 7, "member": S_(None, 0)},
                    "kinds": kinds, "value": {"s": ""}}
         int_key = {"schema": dict(ab, policy="duck"), "kinds": kinds, "value": {"kd": [[{"s": "a"}, {"s": "x"}], [{"i": 1}, {"s": "y"}]]}}
         list_key = {"schema": dict(ab, policy="off"), "kinds": kinds, "value": [[[{"s": "a"}], {"s": "x"}]]}   # unhashable key
@@ -806,8 +881,8 @@ class C03(Property):
             # pair items that are a 2-key dict (unpacks into its keys) and a 2-field namedtuple (into its values)
             {"schema": ab, "kinds": kinds, "value": [{"d": [["a", sx], ["b", sy]]}, {"nt": [["p", {"s": "b"}], ["q", sy]]}]},
             # a sequence iterates a dict's keys, a namedtuple's values, a text's characters
-            {"schema": L(S(None)), "kinds": kinds, "value": {"d": [["a", sx], ["b", sy]]}},
-            {"schema": L(S(None)), "kinds": kinds, "value": {"nt": [["p", sx], ["q", sy]]}},
+            {"schema": L(S_(None)), "kinds": kinds, "value": {"d": [["a", sx], ["b", sy]]}},
+            {"schema": L(S_(None)), "kinds": kinds, "value": {"nt": [["p", sx], ["q", sy]]}},
             {"schema": L(ab), "kinds": kinds, "value": {"s": "ab"}},
             # an unhashable key: TypeError under every policy; a sequence swallows it
             {"schema": ab, "kinds": kinds, "value": [[[sx], sx]]},
@@ -825,29 +900,29 @@ class C03(Property):
             # wrong arity / non-iterable items; an empty tuple / generator / namedtuple is an empty mapping
             {"schema": ab, "kinds": kinds, "value": [{"tuple": [{"s": "a"}, sx, sy]}]},
             {"schema": ab, "kinds": kinds, "value": [{"tuple": [{"s": "a"}, sx]}, {"i": 5}]},
-            {"schema": D([S("a"), S("b")], mode="sparse"), "kinds": kinds, "value": {"gen": []}},
-            {"schema": D([S("a"), S("b")], mode="sparseReq"), "kinds": kinds, "value": {"nt": []}},
+            {"schema": D([S_("a"), S_("b")], mode="sparse"), "kinds": kinds, "value": {"gen": []}},
+            {"schema": D([S_("a"), S_("b")], mode="sparseReq"), "kinds": kinds, "value": {"nt": []}},
             # repeated keys on leaves: 2-character texts; a DateYYYYMMDD keeps its members on None, not on garbage
             {"schema": ab, "kinds": kinds, "value": {"tuple": [{"s": "ax"}, {"s": "ay"}]}},
             {"schema": D([comp("d")]), "kinds": kinds,
              "value": [[{"s": "d"}, {"date": [2020, 1, 2]}], [{"s": "d"}, {"none": 1}], [{"s": "d"}, {"s": "garbage"}], [{"s": "d"}, {"none": 1}]]},
             {"schema": D([comp("d")]), "kinds": kinds, "value": [[{"s": "d"}, {"date": [2020, 1, 2]}], [{"s": "d"}, {"i": 7}]]},
             # repeated key on a sparse member that is a list, and on a nested dict that is reset by the second value
-            {"schema": D([L(S(None), "l"), S("z")], mode="sparse"), "kinds": kinds,
+            {"schema": D([L(S_(None), "l"), S_("z")], mode="sparse"), "kinds": kinds,
              "value": [[{"s": "l"}, [sx, sy]], [{"s": "l"}, {"i": 3}], [{"s": "z"}, sx]]},
-            {"schema": D([D([S("a"), comp("d")], name="m")]), "kinds": kinds,
+            {"schema": D([D([S_("a"), comp("d")], name="m")]), "kinds": kinds,
              "value": [[{"s": "m"}, {"d": [["d", {"date": [2020, 1, 2]}]]}], [{"s": "m"}, [[{"s": "d"}, {"none": 1}]]]]},
             # natives of every shape handed to leaf-likes
-            {"schema": D([S("a"), {"t": "joined", "name": "j", "opt": False, "k": 7, "member": S(None, 0)}, comp("d")]), "kinds": kinds,
+            {"schema": D([S_("a"), {"t": "joined", "name": "j", "opt": False, "k": 7, "member": S_(None, 0)}, comp("d")]), "kinds": kinds,
              "value": [[{"s": "a"}, {"tuple": [sx]}], [{"s": "j"}, {"tuple": [sx, {"s": ""}]}], [{"s": "d"}, {"nt": [["p", sx]]}]]},
         ]
         # ---- elements with a history before the set() the property talks about
         ik = [fl.LEAF_KINDS[2], fl.LEAF_KINDS[0], {"type": "DateYMD"}, {"type": "DateMember", "name": "year"},
               {"type": "DateMember", "name": "month"}, {"type": "DateMember", "name": "day"}]
-        I = lambda name: S(name, 0)
+        I = lambda name: S_(name, 0)
         point = D([I("x"), I("y")], name="p")
         A = lambda member, name=None: {"t": "array", "name": name, "opt": False, "prune": False, "multi": False, "member": member}
-        icomp = lambda name: {"t": "compound", "name": name, "opt": False, "k": 2, "fields": [S("year", 3), S("month", 4), S("day", 5)]}
+        icomp = lambda name: {"t": "compound", "name": name, "opt": False, "k": 2, "fields": [S_("year", 3), S_("month", 4), S_("day", 5)]}
         history = [
             # a member holding an unadaptable text (value None, u 'abc'), then a partial set() under 'subset': True, and
             # `_reset()` must have replaced the stale member (flat input; item assignment; the member's own set())
@@ -857,7 +932,7 @@ class C03(Property):
              "value": [{"tuple": [{"s": "y"}, {"i": 7}]}]},
             {"schema": point, "kinds": ik, "pre": [{"op": "child_set", "path": ["x"], "x": {"s": "1e3"}}],
              "value": {"d": [["y", {"i": 5}]]}},
-            {"schema": D([S("name", 1), point]), "kinds": ik,
+            {"schema": D([S_("name", 1), point]), "kinds": ik,
              "pre": [{"op": "set_flat", "pairs": [["name", "n"], ["p_x", "1e3"], ["p_y", "4"]]}], "value": {"d": [["name", {"s": "m"}]]}},
             # the same on a SparseDict (the member must be gone), with an empty set(), after an earlier full set()
             {"schema": D([I("x"), I("y")], name="p", mode="sparse"), "kinds": ik,
@@ -895,8 +970,37 @@ class C03(Property):
              "pre": [{"op": "setitem", "path": [], "key": "p", "x": {"d": [["x", {"s": "abc"}]]}},
                      {"op": "setitem", "path": ["p"], "key": "y", "x": {"s": "n/a"}}], "value": {"d": [["z", {"i": 1}]]}},
         ]
+        # ---- natives of unusual but legitimate types (h15); kinds: 0 String(strip), 1 Boolean, 3 DateYMD
+        X = lambda o: {"x": S.py_to_nat(o)}
+        xk = kinds + [fl.LEAF_KINDS[2], fl.LEAF_KINDS[6], fl.LEAF_KINDS[7], fl.LEAF_KINDS[11], fl.LEAF_KINDS[12], fl.LEAF_KINDS[5],
+                      fl.LEAF_KINDS[1]]      # 8 Integer, 9 Date, 10 Time, 11 Float, 12 Decimal, 13 Enum, 14 String(no strip)
+        tz = datetime.timezone(datetime.timedelta(minutes=60))
+        import fractions
+        exotic = [
+            # seeded C03-string-adapt-nonstr-unstripped: text obtained through str() must be stripped like any other text
+            {"schema": S_("name"), "kinds": xk, "value": X(collections.UserString("  Biff  "))},
+            {"schema": S_("name"), "kinds": xk, "value": X(S.Other("Hello, world\n", True))},
+            {"schema": D([S_("name"), L(S_(None), "tags")]), "kinds": xk,
+             "value": {"d": [["name", X(collections.UserString(" Biff "))], ["tags", [{"s": "a"}, X(collections.UserString("b\t"))]]]}},
+            {"schema": D([S_("e", 13), S_("raw", 14)]), "kinds": xk,
+             "value": {"d": [["e", X(collections.UserString("\u3000a "))], ["raw", X(S.IntSub(5, " five "))]]}},
+            {"schema": S_("name"), "kinds": xk, "value": X(S.TextSub(" x\u00a0", "shown"))},
+            {"schema": S_("name"), "kinds": xk, "value": X(b" raw ")},
+            # numbers: subclass instances, IntEnum members, Fractions, text-likes
+            {"schema": D([S_("i", 8), S_("f", 11), S_("d", 12), S_("b", 1)]), "kinds": xk,
+             "value": {"d": [["i", X(S.IntSub(5, " five "))], ["f", X(S.FloatSub(1.5, "x"))], ["d", X(S.DecSub("1.50", " 1.5 "))],
+                             ["b", X(S.int_enum(0))]]}},
+            {"schema": L(S_(None, 8)), "kinds": xk,
+             "value": [X(S.int_enum(7)), X(fractions.Fraction(7, 2)), X(collections.UserString(" 12 ")), X(b" 12 "), {"b": True}]},
+            # temporals: a datetime / a date subclass handed to a Date and to a DateYYYYMMDD; an aware time
+            {"schema": D([S_("when", 9), S_("at", 10), comp("d")]), "kinds": xk,
+             "value": {"d": [["when", {"dt": [2020, 1, 2, 3, 4, 5, 6]}], ["at", X(datetime.time(1, 2, 3, tzinfo=tz))],
+                             ["d", {"dt": [2020, 1, 2, 3, 4, 5, 0]}]]}},
+            {"schema": D([S_("when", 9), comp("d")]), "kinds": xk,
+             "value": [[{"s": "when"}, X(S.DateSub(2020, 1, 2, " the day "))], [{"s": "d"}, X(S.DateSub(2020, 2, 29, "x"))]]},
+        ]
         return [bool_partial, joined, pair_list, two_char, one_text, nt, dup_kept, dup_reset, date_garbage, date_dup, noprune,
-                int_key, list_key] + more + history
+                int_key, list_key] + more + history + exotic
 
     def generate(self, rng, n, tier):
         for _ in range(n):
@@ -1098,6 +1202,15 @@ class C03(Property):
         for s in fl.walk_schema(case["schema"]):
             t.append("has-" + s["t"] + ("-" + s.get("policy", "") if s["t"] == "dict" else ""))
         t.extend(sorted(value_forms(case["value"], set())))
+        ex = exotic_tags(case["value"], set())
+        for st in case.get("pre") or []:
+            if "x" in st:
+                exotic_tags(st["x"], ex)
+        t.extend(sorted(ex))
+        if ex:
+            t.append("exotic-any")
+            if f.get("flag") is True:
+                t.append("exotic-any+first=True")
         if dup_chains(obs.get("_x")):
             t.append("repeated-key")
         if (obs.get("_env") or {}).get("adapt2"):
